@@ -137,6 +137,35 @@ def builtin_only(inv_desc: dict, ups: List[int]) -> bool:
     return True
 
 
+def deepen(g: VGen, rng: random.Random, c: dict) -> dict:
+    """the same case under 3..12 more levels of containers: error trees (and the renderers' indentation / recursion)
+    far deeper than the generators' own nesting"""
+    v, x = c["v"], c["x"]
+    K = {"t": "str", "s": [107]}
+    for _ in range(rng.randint(3, 12)):
+        kind = rng.choice(["list", "list", "utuple", "map", "dictAny", "maybe", "union1"])
+        if kind == "list":
+            v = {"k": "list", "vid": g.vid(), "item": v, "preds": None, "apreds": None, "coerce": None}
+            x = {"t": "list", "oid": g.oid(), "xs": [x]}
+        elif kind == "utuple":
+            v = {"k": "utuple", "vid": g.vid(), "item": v, "preds": None, "apreds": None, "coerce": None}
+            x = {"t": "tuple", "oid": g.oid(), "xs": [x]}
+        elif kind == "map":
+            v = {"k": "map", "vid": g.vid(), "key": {"k": "always", "vid": g.vid()}, "value": v, "preds": None,
+                 "apreds": None, "coerce": None}
+            x = {"t": "dict", "oid": g.oid(), "kvs": [[K, x]]}
+        elif kind == "dictAny":
+            v = {"k": "record", "vid": g.vid(), "kind": "dictAny", "keys": [K], "vals": [v], "reqs": [True],
+                 "knrVids": [g.vid()], "oc": None, "aoc": None, "failUnknown": False}
+            x = {"t": "dict", "oid": g.oid(), "kvs": [[K, x]]}
+        elif kind == "maybe":
+            v = {"k": "maybe", "vid": g.vid(), "inner": v}
+            x = {"t": "just", "oid": g.oid(), "v": x}
+        else:
+            v = {"k": "union", "vid": g.vid(), "vs": [v]}
+    return dict(c, v=v, x=x, deepened=True)
+
+
 def shard(seed: int, shard_i: int, n: int, opts: dict) -> dict:
     from koda_validate import Invalid
     from koda_validate.serialization import to_serializable_errs
@@ -149,6 +178,8 @@ def shard(seed: int, shard_i: int, n: int, opts: dict) -> dict:
     kinds: collections.Counter = collections.Counter()
     evaluated = 0
     nested = 0
+    deepened = 0
+    max_depth = 0
     skipped = collections.Counter()
     distinct = set()
     samples: List[dict] = []
@@ -158,6 +189,9 @@ def shard(seed: int, shard_i: int, n: int, opts: dict) -> dict:
     corpus = registry.load_corpus("C12") if shard_i == 0 else []
     for i in range(n + len(corpus)):
         c = corpus[i] if i < len(corpus) else rng.choice(gens)(g, opts)
+        if i >= len(corpus) and rng.random() < 0.15:
+            c = deepen(g, rng, c)
+            deepened += 1
         wire.set_classes(c["classes"])
         ctx = wire.Ctx()
         try:
@@ -195,6 +229,7 @@ def shard(seed: int, shard_i: int, n: int, opts: dict) -> dict:
         depth = engine.inv_depth(invd)
         if depth > 1:
             nested += 1
+        max_depth = max(max_depth, depth)
         distinct.add(engine.case_hash(invd))
         o: Dict[str, Any] = {"case": c, "inv": invd, "mode": mode}
         # default rendering
@@ -256,7 +291,8 @@ def shard(seed: int, shard_i: int, n: int, opts: dict) -> dict:
             disagreements.append({"case": o["case"], "fields": ["message-lines"], "real": o["lines"], "model": a_def["lines"], "xd": o["inv"]})
     return {"evaluated": evaluated, "nested": nested, "kinds": dict(kinds), "skipped": dict(skipped),
             "failures": failures[:30], "n_failures": len(failures), "disagreements": disagreements[:10],
-            "n_disagreements": len(disagreements), "distinct": list(distinct), "samples": samples}
+            "n_disagreements": len(disagreements), "distinct": list(distinct), "samples": samples,
+            "deepened": deepened, "max_depth": max_depth}
 
 
 def run(pid: str, tier: str, seed: int, spec: dict, scale: float = 1.0, salt: str = "") -> dict:
@@ -271,7 +307,11 @@ def run(pid: str, tier: str, seed: int, spec: dict, scale: float = 1.0, salt: st
     skipped: collections.Counter = collections.Counter()
     distinct = set()
     nested = 0
+    deepened = 0
+    max_depth = 0
     for r in res:
+        deepened += r["deepened"]
+        max_depth = max(max_depth, r["max_depth"])
         out["evaluations"] += r["evaluated"]
         out["failures"] += r["failures"]
         out["disagreements"] += r["disagreements"]
@@ -283,5 +323,6 @@ def run(pid: str, tier: str, seed: int, spec: dict, scale: float = 1.0, salt: st
         distinct.update(r["distinct"])
         nested += r["nested"]
     out["distinct_nontrivial"] = len(distinct)
-    out["distribution"] = {"error_nodes_by_kind": dict(kinds), "nested_errors": nested, "skipped": dict(skipped)}
+    out["distribution"] = {"error_nodes_by_kind": dict(kinds), "nested_errors": nested, "skipped": dict(skipped),
+                           "cases_deepened_by_3_to_12_container_levels": deepened, "deepest_error_tree": max_depth}
     return out
